@@ -509,6 +509,18 @@ retry_peek:
 	if (result >= sizeof(struct qb_ipc_request_header)) {
 		struct qb_ipc_request_header *hdr = NULL;
 		hdr = (struct qb_ipc_request_header *)msg;
+		if (hdr->size < 0 || (size_t)hdr->size > len) {
+			/*
+			 * The length field does not fit the caller's buffer:
+			 * drop the datagram, never ask recv() for more bytes
+			 * than the buffer holds.
+			 */
+			(void)recv(one_way->u.us.sock, data,
+				   sizeof(struct qb_ipc_request_header),
+				   MSG_NOSIGNAL);
+			final_rc = -EMSGSIZE;
+			goto cleanup_sigpipe;
+		}
 		to_recv = hdr->size;
 	}
 
